@@ -669,7 +669,11 @@ def stage(c, prop, backends=('ram', 'sqlmem')):
   if broken and set(preds) != set(ALL_PREDICATES):
     # the tie broke on these programs: judge them with EVERY predicate, so that a concrete failing input is reported
     extra = evaluate(c, [(progs[items[k][0]], items[k][1]) for k in broken[:40]], ALL_PREDICATES)
+    # ... except the predicates that another property owns AND records as a known finding of the tree: those fail on
+    # the unchanged tree too, they are not what broke the tie
+    foreign_known = set(e['key'] for e in core.load_known_findings() if e.get('status') == 'known' and e['property'] != prop)
     for k, (_, f) in zip(broken[:40], extra):
+      f = [(i, p) for (i, p) in f if p in preds or KEYS_WHAT[p][0] not in foreign_known]
       all_fails[k] = sorted(set(all_fails[k]) | set(f))
   reported = set()
   for k, ((pi, be), (real, _)) in enumerate(zip(items, results)):
